@@ -822,6 +822,9 @@ def atheris_shard(arg):
 def shrink_case(case, sig, budget=250):
     if case.get("kind", "single") != "single":
         return case
+    if "source-order" in str(sig[3]):
+        # the clause is defined for generated (error-free) programs only: a shrunk text is not one of them
+        return case
     lang = case["lang"]
     data = G.decode_text(case)
     if len(data) > 200000:
